@@ -146,6 +146,7 @@ func harnessC05Mutation(maxLen int, alphabet string) {
 }
 
 func Harness_C05_mutation_len3() { harnessC05Mutation(3, "") }
+func Harness_C05_mutation_len4_alpha() { harnessC05Mutation(4, "JrN+-x") }
 func Harness_C05_mutation_len5_alpha() { harnessC05Mutation(5, "JrN+-x") }
 
 // BetterEqual / BetterThan agree with set inclusion.
